@@ -1,7 +1,7 @@
 """C06 Refactor / re-solve histories are as good as a fresh factorization  —  R3 phases (drivers, sp_preorder), reuse-branch twin, R10 may-write, pivot fallback, R9."""
 from ..facts import Program
 from ..run import Check, AnalysisBroken
-from ..rules import pivot, factor_tail, r9_sibling, preorder, r10, misc, r6_wspace
+from ..rules import pivot, factor_tail, r9_sibling, preorder, r10, misc, r6_wspace, r5_grow, expand
 from ..rules.effects import PathEffects
 from . import _drv, _gssvx, _expert
 
@@ -52,6 +52,11 @@ def run(tier):
             misc.option_choice_rules(chk, 'C06.options', prog, _p, cfgname)
         if r6_wspace.run(chk, 'R6', prog, cfgname) < 32:
             raise AnalysisBroken('C06: workspace allocator routines not found')
+        r5_grow.run(chk, 'R5', prog, cfgname)
+        chk.clause('C06.xpand', 'structure of ?expand (storage grown during a re-factorization keeps its contents)')
+        for p in _drv.PRECS:
+            expand.run(chk, 'C06.xpand', prog, p, cfgname)
+            expand.moved_block_extent_rule(chk, 'C06.xpand', prog, p, cfgname)
         if n < 4 * 200 or nl < 5:
             raise AnalysisBroken('C06: %d driver leaves / %d sp_preorder leaves, floors 800 / 5' % (n, nl))
         if cfgname == 'tested':
